@@ -999,6 +999,76 @@ def split_tuple_compares(fn: ast.FunctionDef) -> tuple[ast.FunctionDef, int]:
     return new, count
 
 
+def local_normalise(fn: ast.FunctionDef) -> ast.FunctionDef:
+    """Always-safe, purely local canonicalisation of a function body (applied to the normalised and to the as-written view):
+      * `t = E` directly followed by `return t`, t bound and read nowhere else  ->  `return E`
+      * `if a: (if b: X)` with no else on either level and nothing else in the outer body  ->  `if a and b: X`
+      * `if c: <block ending in return / raise / continue / break> else: REST`  ->  `if c: ...` followed by REST
+    The node itself is returned when nothing applies."""
+    def _term(body):
+        return bool(body) and isinstance(body[-1], (ast.Return, ast.Raise, ast.Continue, ast.Break))
+
+    need = False
+    for n in ast.walk(fn):
+        if isinstance(n, ast.If):
+            if (not n.orelse and len(n.body) == 1 and isinstance(n.body[0], ast.If) and not n.body[0].orelse) or (n.orelse and _term(n.body)):
+                need = True
+                break
+        if isinstance(n, ast.Return) and isinstance(n.value, ast.Name):
+            need = True
+            break
+    if not need:
+        return fn
+    # the binding of a return temporary reaches nothing but that return; only global / nonlocal names are observable
+    declared = {nm for n in ast.walk(fn) if isinstance(n, (ast.Global, ast.Nonlocal)) for nm in n.names}
+    changed = 0
+
+    def block(stmts: list[ast.stmt]) -> list[ast.stmt]:
+        nonlocal changed
+        out: list[ast.stmt] = []
+        i = 0
+        stmts = list(stmts)
+        while i < len(stmts):
+            st = stmts[i]
+            for fld in ("body", "orelse", "finalbody"):
+                v = getattr(st, fld, None)
+                if isinstance(v, list) and v and isinstance(v[0], ast.stmt) and not isinstance(st, ast.ClassDef):
+                    setattr(st, fld, block(v))
+            for h in getattr(st, "handlers", []) or []:
+                h.body = block(h.body)
+            for c in getattr(st, "cases", []) or []:
+                c.body = block(c.body)
+            # nested ifs
+            while isinstance(st, ast.If) and not st.orelse and len(st.body) == 1 and isinstance(st.body[0], ast.If) and not st.body[0].orelse:
+                inner = st.body[0]
+                vals = (st.test.values if isinstance(st.test, ast.BoolOp) and isinstance(st.test.op, ast.And) else [st.test]) + (inner.test.values if isinstance(inner.test, ast.BoolOp) and isinstance(inner.test.op, ast.And) else [inner.test])
+                st = ast.copy_location(ast.If(test=ast.copy_location(ast.BoolOp(op=ast.And(), values=list(vals)), st.test), body=inner.body, orelse=[]), st)
+                changed += 1
+            # else after a terminating body
+            if isinstance(st, ast.If) and st.orelse and _term(st.body) and not (len(st.orelse) == 1 and isinstance(st.orelse[0], ast.If) and not _term(st.orelse[0].body) and False):
+                rest = st.orelse
+                st.orelse = []
+                stmts[i + 1 : i + 1] = rest
+                changed += 1
+            # return temporaries
+            if isinstance(st, ast.Assign) and len(st.targets) == 1 and isinstance(st.targets[0], ast.Name) and i + 1 < len(stmts) and isinstance(stmts[i + 1], ast.Return) and isinstance(stmts[i + 1].value, ast.Name) and stmts[i + 1].value.id == st.targets[0].id and st.targets[0].id not in declared:
+                out.append(ast.copy_location(ast.Return(value=st.value), st))
+                changed += 1
+                i += 2
+                continue
+            out.append(st)
+            i += 1
+        return out
+
+    new = copy.deepcopy(fn) if not getattr(fn, "_xsa_copy", False) else fn
+    new.body = block(new.body)
+    if not changed:
+        return fn
+    ast.fix_missing_locations(new)
+    new._xsa_copy = True  # type: ignore[attr-defined]
+    return new
+
+
 def inline(fi) -> ast.AST:
     """Normalised copy of fi.raw_node: private helpers inlined, field aliases propagated (the node itself when
     nothing applies)."""
@@ -1014,6 +1084,7 @@ def inline(fi) -> ast.AST:
     new, _ = expand_literal_quantifiers(new, getattr(fi.module, "assigns", {}))
     new, _ = expand_splats(new)
     new, _ = split_tuple_compares(new)
+    new = local_normalise(new)
     return new
 
 
